@@ -30,7 +30,7 @@ pub mod fp;
 
 /// properties whose harness run is split over child processes (see main.rs `run_sharded`)
 pub fn sharded(prop: &str) -> bool {
-    matches!(prop, "C01" | "C04" | "C13" | "C28" | "C20" | "C08" | "C09" | "C10" | "C11" | "C12")
+    matches!(prop, "C01" | "C02" | "C03" | "C04" | "C05" | "C07" | "C13" | "C28" | "C20" | "C08" | "C09" | "C10" | "C11" | "C12")
 }
 
 pub fn run(ctx: &Ctx, out: &mut Out) -> bool {
